@@ -1,13 +1,16 @@
 SPECIFICATION Spec
 CONSTANTS MaxReconnects = 2
           MaxCuts = 1
-          MaxProbes = 2
+          MaxProbes = 1
+          MaxPends = 1
           MaxRaces = 1
           MaxTicks = 1
+          Firsts = {"close"}
           Js = {0, 1, 2, 3, 4, 5, 6, 7, 8, 9, 10, 11, 12, 14}
 INVARIANT TypeOK
 INVARIANT CloseOncePerConnection
 INVARIANT OldTransportsClosed
 INVARIANT WaitsOnlyOnDeadConnection
 INVARIANT Accounted
+INVARIANT NothingPendingOnDeadConnection
 INVARIANT ClosedStaysClosed
